@@ -437,4 +437,48 @@ theorem oidc_nonadmin_fields (ca : CAKeys) (t : Token) (o : Oidc) (req : Opts) (
   · exact h2
   · simp [hct, CT.num] at h1
 
+/-! ## further examples: the hypotheses of the theorems above are satisfiable -/
+
+/-- two different requests under one token, both issued, same certificate (request_cannot_extend);
+    the second one asks for other principals and another key id -/
+example :
+    let t : Token := ⟨s "alice", some ⟨s "user", [], []⟩⟩
+    sshSign ⟨true, true, true⟩ .jwk t ⟨[], []⟩ ⟨[], [], []⟩ .ok = .issued ⟨1, s "alice", [s "alice"]⟩ .userKey ∧
+    sshSign ⟨true, true, true⟩ .jwk t ⟨[], []⟩ ⟨s "user", s "root", [s "root"]⟩ .ok = .issued ⟨1, s "alice", [s "alice"]⟩ .userKey := by
+  decide
+
+/-- a request that tries to add a principal to the token's list is refused -/
+example :
+    sshSign ⟨true, true, true⟩ .x5c ⟨s "alice", some ⟨s "user", [], [s "alice"]⟩⟩ ⟨[], []⟩
+      ⟨[], [], [s "alice", s "root"]⟩ .ok = .refused 403 := by decide
+
+/-- empty principal in the request (empty_principal_refused) -/
+example :
+    sshSign ⟨true, true, true⟩ .jwk ⟨s "alice", some ⟨s "user", [], []⟩⟩ ⟨[], []⟩
+      ⟨[], [], [s "alice", []]⟩ .ok = .refused 400 := by decide
+
+/-- rekey of a valid host certificate (pop_requirements_rekey / rekey_keeps hypotheses are satisfiable) -/
+example :
+    popRekey ⟨⟨true, true, true⟩, false, false⟩ ⟨2, s "h1", [s "h.example.com"], 7, false, true, false, false, true⟩
+      ⟨true, true, true, true, false⟩ false .ok
+    = .issued ⟨2, s "h1", [s "h.example.com"]⟩ 7 .hostKey := by decide
+
+/-- a user certificate signed by the user key authorizes its own revocation, not a renewal -/
+example :
+    let c : PopCert := ⟨1, s "alice", [s "alice"], 7, true, false, false, false, true⟩
+    popAuthorize ⟨⟨true, true, true⟩, false, false⟩ .revoke c ⟨true, true, true, true, true⟩ = true ∧
+    popRenew ⟨⟨true, true, true⟩, false, false⟩ c ⟨true, true, true, true, true⟩ false = .refused := by decide
+
+/-- revoked host certificate: no renewal -/
+example :
+    popRenew ⟨⟨true, true, true⟩, false, false⟩ ⟨2, s "h1", [], 7, false, true, false, false, true⟩
+      ⟨true, true, true, true, false⟩ true = .refused := by decide
+
+/-- OIDC non-administrator asking for a host certificate and foreign principals -/
+example :
+    sshSign ⟨true, true, true⟩ (.oidc false) ⟨s "123", none⟩ ⟨s "a@example.com", [s "a", s "a@example.com"]⟩
+      ⟨[], s "root", [s "root"]⟩ .ok
+    = .issued ⟨1, s "a@example.com", [s "a", s "a@example.com"]⟩ .userKey ∧
+    sshSign ⟨true, true, true⟩ (.oidc false) ⟨s "123", none⟩ ⟨s "a@example.com", [s "a", s "a@example.com"]⟩
+      ⟨s "host", [], []⟩ .ok = .refused 403 := by decide
 end Verif.SSH
